@@ -212,26 +212,26 @@ class SpecProblem(Problem):
 
     # Problem interface -----------------------------------------------------------
     def obj(self, x):
-        return self._obj(np.asarray(x, dtype=float))
+        return self._obj(np.array(x, dtype=float))
 
     def obj_grad(self, x):
-        x = np.asarray(x, dtype=float)
+        x = np.array(x, dtype=float)
         return self._deliver("obj_grad", x.tobytes(), lambda: self._obj_grad(x), False)
 
     def cons(self, x):
-        x = np.asarray(x, dtype=float)
+        x = np.array(x, dtype=float)
         return self._deliver("cons", x.tobytes(), lambda: self._cons(x), False)
 
     def cons_jac(self, x):
-        x = np.asarray(x, dtype=float)
+        x = np.array(x, dtype=float)
         const = not self.spec.nonlinear_cons
         return self._deliver(
             "cons_jac", x.tobytes(),
             lambda: _pack(self._cons_jac_dense(x), self.fmt, self.dup), const)
 
     def lag_hess(self, x, y):
-        x = np.asarray(x, dtype=float)
-        y = np.asarray(y, dtype=float)
+        x = np.array(x, dtype=float)
+        y = np.array(y, dtype=float)
         const = self.spec.is_qp
         return self._deliver(
             "lag_hess", x.tobytes() + y.tobytes(),
@@ -534,7 +534,8 @@ def gen_deg(rng, variant=None):
     elif variant == 2:  # all variables fixed
         n = int(rng.integers(1, 5))
         s = gen_qp(rng, n=n, m=0, var_force=["fixed"] * n)
-        s.var_ub = np.copy(s.var_lb)
+        s.var_lb = np.copy(s.meta["xs"])
+        s.var_ub = np.copy(s.meta["xs"])
         s.x0 = np.copy(s.var_lb)
         s.meta.update(family="DEG", variant="all-fixed")
     elif variant == 3:  # no constraints at all, free variables
